@@ -51,6 +51,21 @@ def judge(rec, props: tuple, case: dict, *, want=None, extra=None, key=None, sli
                           "fresh-chart-read-by-several-threads")
             return out, None, None
         rec.cls("fresh_chart_first_read_by_4_threads_at_once")
+    if len(case["text"]) % 17 == 5 and len(case["text"]) < 40000:
+        # before the application reads it, the chart is looked at the way a debugger's variable pane or a serialiser looks at objects
+        try:
+            harness.enumerate_attributes(out.chart)
+            rec.cls("every_attribute_of_the_chart_enumerated_before_it_was_read")
+        except Exception:  # noqa
+            pass
+    if len(case["text"]) % 13 == 6 and len(case["text"]) < 40000:
+        # the application's FIRST reads of the chart are cut short (a timeout, Ctrl-C: an asynchronous exception somewhere inside a
+        # read); it catches that and reads again. The chart then shows what any chart of this text shows.
+        import random as _random
+
+        if harness.interrupted(lambda: harness.obs(out.chart), _random.Random(len(case["text"])), 5, rec):
+            rec.cls("first_reads_of_the_chart_were_aborted_midway")
+            rcase["aborted_first_reads"] = True
     try:
         ob = harness.obs(out.chart)
     except Exception as e:  # noqa
